@@ -151,11 +151,17 @@ var jsPoolOdd = []string{"var o={}; o.o=o; o", "var a=[]; a[0]=a; a", "({get a()
 
 func pick(r *vh.Rng, xs []string) string { return xs[r.Pick(len(xs))] }
 
+// guardsOff: guards switched off for exploration runs (C03_NOGUARD=name,name,... or "all");
+// bin/check never sets it.
+var guardsOff = map[string]bool{}
+
+func on(name string) bool { return !guardsOff[name] && !guardsOff["all"] }
+
 // pickXPath picks from exoticXPaths; under the guard only strings inside xpath_plain.
 func pickXPath(r *vh.Rng, guard bool) string {
 	for {
 		x := pick(r, exoticXPaths)
-		if !guard || xpathPlain(x) {
+		if !on("xpath_plain") || xpathPlain(x) {
 			return x
 		}
 	}
@@ -179,7 +185,9 @@ func mutateSchema(r *vh.Rng, root *interface{}, guard bool) string {
 		return "emptied"
 	}
 	for try := 0; try < 8; try++ {
-		switch r.Pick(16) {
+		switch r.Pick(17) {
+		case 16:
+			return xpathDynamicMutation(r, root)
 		case 0:
 			s := ss[r.Pick(len(ss))]
 			s.del()
@@ -198,10 +206,10 @@ func mutateSchema(r *vh.Rng, root *interface{}, guard bool) string {
 			s := ss[r.Pick(len(ss))]
 			vals := []interface{}{nil, true, false, num("0"), num("1"), "", "x", []interface{}{}, map[string]interface{}{}, []interface{}{nil}, map[string]interface{}{"": nil}}
 			v := vals[r.Pick(len(vals))]
-			if guard && v == nil && strings.Contains(s.path, "xpath_dynamic") {
+			if on("xd_no_null") && v == nil && strings.Contains(s.path, "xpath_dynamic") {
 				continue
 			}
-			if guard && strings.Contains(s.path, "xpath_dynamic") {
+			if on("xd_no_null") && strings.Contains(s.path, "xpath_dynamic") {
 				if _, isArr := v.([]interface{}); isArr {
 					continue
 				}
@@ -222,7 +230,7 @@ func mutateSchema(r *vh.Rng, root *interface{}, guard bool) string {
 				continue
 			}
 			s := cs[r.Pick(len(cs))]
-			if !guard && r.Chance(0.5) {
+			if !on("int_plain") && r.Chance(0.5) {
 				s.set(num(pick(r, oddIntForms)))
 				return "int-odd-form:" + lastKey(s.path)
 			}
@@ -472,7 +480,7 @@ func addTemplateMutation(r *vh.Rng, root *interface{}, guard bool) string {
 	case 6:
 		// fan-out chain: depth d, two references per level (expansion size 2^d)
 		d := r.Between(2, 10)
-		if !guard && r.Chance(0.3) {
+		if !on("tpl_small") && r.Chance(0.3) {
 			d = r.Between(24, 40)
 		}
 		for i := 0; i < d; i++ {
@@ -494,6 +502,37 @@ func addTemplateMutation(r *vh.Rng, root *interface{}, guard bool) string {
 }
 
 func constDecl(s string) interface{} { return map[string]interface{}{"const": s} }
+
+// xpathDynamicMutation puts arbitrary declaration-like JSON below an `xpath_dynamic` (its JSON
+// schema accepts any object).  The entries with a null are outside the guard xd_no_null.
+func xpathDynamicMutation(r *vh.Rng, root *interface{}) string {
+	ob := finalObject(root)
+	if ob == nil {
+		return "none"
+	}
+	var pool []string
+	pool = append(pool, `{"object":{"a":{"const":"x"}}}`, `{"array":[{"const":"a"}]}`, `{"const":"a","type":"bogus"}`, `{"const":"1","type":"int"}`,
+		`{"custom_func":{"name":"upper","args":5}}`, `{"custom_func":{"name":"upper"}}`, `{"custom_func":{"name":5}}`, `{"custom_func":{}}`, `{"custom_func":[]}`,
+		`{"template":"nope"}`, `{"template":""}`, `{"xpath":"a","object":{}}`, `{"const":1}`, `{"const":["a"]}`, `{"external":"e"}`, `{"external":""}`, `{"external":"missing"}`,
+		`{"object":{"a":{"xpath_dynamic":{"object":{}}}}}`, `{"object":{}}`, `{"array":[]}`, `{}`, `{"xpath":""}`, `{"xpath":" "}`, `{"xpath":"a","xpath_dynamic":{"const":"b"}}`,
+		`{"custom_parse":"nope"}`, `{"custom_parse":""}`, `{"no_trim":"yes"}`, `{"keep_empty_or_null":1}`, `{"type":5}`, `{"const":"a","unknown":{"deep":[1,2,3]}}`,
+		`{"custom_func":{"name":"javascript","args":[{"const":"1"},{"const":"a"}]}}`, `{"custom_func":{"name":"copy"}}`, `{"array":[{"array":[{"const":"a"}]}]}`,
+		`{"object":{"":{"const":"x"}}}`, `{"object":{"a.b":{"const":"x"},"a%b":{"const":"y"}}}`, `{"custom_func":{"name":"concat","args":[{"object":{"a":{"const":"x"}}}]}}`)
+	if !on("xd_no_null") {
+		pool = append(pool, `{"object":{"a":null}}`, `{"array":[null]}`, `{"custom_func":{"name":"concat","args":[null]}}`, `{"xpath_dynamic":{"array":[null,null]}}`,
+			`{"object":{"a":{"object":{"b":null}}}}`, `{"custom_func":null}`, `{"object":null}`, `{"array":null}`, `{"const":null}`, `{"template":null}`)
+	}
+	v, _ := parseJSON([]byte(pool[r.Pick(len(pool))]))
+	d := map[string]interface{}{"xpath_dynamic": v}
+	switch r.Pick(3) {
+	case 0:
+		d["object"] = map[string]interface{}{"k": constDecl("v")}
+	case 1:
+		d["type"] = r.PickStr("int", "string")
+	}
+	ob["xd"] = d
+	return "xpath-dynamic-odd"
+}
 
 func argDecl(r *vh.Rng) interface{} {
 	switch r.Pick(9) {
@@ -557,7 +596,7 @@ func addJSMutation(r *vh.Rng, root *interface{}, guard bool) string {
 		return "none"
 	}
 	args := []interface{}{constDecl(pick(r, jsPool))}
-	if !guard && r.Chance(0.3) {
+	if !on("js_export_total") && r.Chance(0.3) {
 		args = []interface{}{constDecl(pick(r, jsPoolOdd))}
 	}
 	k := r.Between(0, 4)
@@ -633,7 +672,7 @@ func deepNestMutation(r *vh.Rng, root *interface{}, guard bool) string {
 			v := top
 			if k[2] != "segment_group" {
 				d = r.Between(2, 5) // guard groups_small (guardViolation re-checks the cost)
-				if !guard && r.Chance(0.5) {
+				if !on("groups_small") && r.Chance(0.5) {
 					d = r.Between(14, 30)
 				}
 			}
